@@ -1,0 +1,47 @@
+//go:build verif
+
+// Machine-checked contracts for package gogen (comment-only file; compiled
+// only under the build tag "verif", contains no code). Consumed by /verif/govc.
+// Syntax: //@ func <name> starts a block; requires/ensures/assigns/loop clauses
+// follow; "prop" lists the properties that own the block. Specification
+// functions (UntypedAssignOK, Repr, ...) are defined in /verif/specs.
+package gogen
+
+// ---------------------------------------------------------------------------
+// template.go — C05 assignability / comparability / convertibility
+
+//@ func (*CodeBuilder).ensureLoaded
+//@ trusted
+//@ readonly
+
+//@ func realType
+//@ prop C05
+//@ pure
+//@ requires typ != nil
+//@ ensures result == ite(typeis(typ, *types.Alias), types.Unalias(typ), typ)
+//@ ensures result != nil
+
+//@ func getElemTypeIf
+//@ prop C05
+//@ readonly
+//@ requires t != nil
+//@ requires imp(parg != nil && parg.CVal != nil, cWf(parg.CVal))
+//@ ensures imp(typeis(t, *types.Basic), typeis(result, *types.Basic) && result.(*types.Basic).Kind() == NormKind(t.(*types.Basic).Kind(), parg))
+//@ ensures imp(!typeis(t, *types.Basic), result == t)
+
+//@ func outOfRange
+//@ prop C05
+//@ readonly
+//@ requires 2 <= tkind && tkind <= 12
+//@ requires imp(cval != nil, cWf(cval) && cKind(cval) >= 3)
+//@ ensures result == (cval != nil && !(IntMin(tkind) <= cRe(cval) && cRe(cval) <= IntMax(tkind)))
+
+//@ func assignableTo
+//@ prop C05
+//@ readonly
+//@ requires V != nil && T != nil
+//@ requires types.AssignableTo(V, T)
+//@ requires ValidBasic(V.Underlying()) && ValidBasic(T.Underlying())
+//@ requires OperandWfFor(V.Underlying(), pv)
+//@ requires imp(typeis(V.Underlying(), *types.Basic) && V.Underlying().(*types.Basic).Kind() == 22 && pv != nil && pv.CVal != nil, !cIsInt(pv.CVal))
+//@ ensures result == UntypedAssignOK(V.Underlying(), T.Underlying(), pv)
